@@ -34,6 +34,7 @@ mod mresolve;
 mod mval;
 mod mvm;
 mod pool;
+mod replay;
 
 use common::*;
 use std::path::PathBuf;
@@ -82,7 +83,9 @@ fn main() {
         workers: std::env::var("VERIF_WORKERS").ok().and_then(|s| s.parse().ok()).unwrap_or(16),
         start: Instant::now(),
     };
-    let _ = replay;
+    if let Some(path) = replay {
+        std::process::exit(replay::replay(&ctx, &path));
+    }
     let report = match id.as_str() {
         "C01" => c01::run(&ctx),
         "C02" => c02::run(&ctx),
